@@ -101,6 +101,17 @@ pub fn exec(line: &str, model: &mut Model) -> Option<Exec> {
             if n + 1 != t.len() { return None; }
             let is_wf = wf(&b);
             let mut b1 = b.clone();
+            if line.len() % 11 == 3 {
+                // serialisations that FAIL half way (a fixed buffer that is too small) just before the one that counts:
+                // whatever the serialisers keep between calls must be as after a successful call
+                let _ = no_panic(|| {
+                    for k in [0usize, 1, 2, 3, 5, 8, 13, 21] {
+                        for c in &b.canonicals { let mut buf = vec![0u8; k]; let _ = serde_cbor::to_writer(&mut buf[..], c); }
+                        let mut buf = vec![0u8; k + 9]; let _ = serde_cbor::to_writer(&mut buf[..], &b.primary);
+                        let mut buf = vec![0u8; 3 * k + 1]; let _ = serde_cbor::to_writer(&mut buf[..], &b);
+                    }
+                });
+            }
             let r = no_panic(|| { let bytes = b1.to_cbor(); (bytes, b1) });
             let (bytes, b1) = match r { Some(x) => x, None => {
                 let mut e = Exec::new("panic".into());
@@ -316,6 +327,13 @@ pub fn generate(prop: &str, ctx: &mut Ctx, rep: &mut Report, emit: &mut dyn FnMu
             match rng.below(3) { 0 => b.primary.crc = CrcValue::Unknown(k), 1 => { if let Some(c) = b.canonicals.last_mut() { c.crc = CrcValue::Unknown(k); } }
                 _ => { b.primary.crc = CrcValue::Unknown(k); for c in b.canonicals.iter_mut() { if rng.chance(1, 2) { c.crc = CrcValue::Unknown(3 + rng.below(253) as u8); } } } }
             if rng.chance(1, 2) { b.primary.bundle_control_flags |= 1; b.primary.fragmentation_offset = rng.u64b(); b.primary.total_data_length = rng.u64b(); }
+        }
+        if prop == "C02" && i % 15 == 6 {
+            // a lifetime with a fraction of a millisecond (API only): the wire carries whole milliseconds, rounded down
+            // as everywhere else in the crate (Duration::as_millis)
+            let mut toks: Vec<String> = show_bundle(&b).split(' ').map(|x| x.to_string()).collect();
+            toks[9] = format!("{}+{}", toks[9], *rng.pick(&[1u32, 400_000, 333_333, 999_999, 500_000]));
+            emit(ctx, rep, format!("{} {}", op, toks.join(" ")));
         }
         emit(ctx, rep, format!("{} {}", op, show_bundle(&b)));
         if i % 40 == 7 && prop != "C03" {
